@@ -458,10 +458,25 @@ fn inject(inj: &mut Inj, prog: &mut GProg, fault: &str) -> Option<(Rule, String)
             expected = (Rule::NonLocal, String::new());
         }
         "not-optional" => {
-            let e = match inj.t.choose(4) {
+            let opt_cap = caps.iter().find(|c| c.quant == Quant::Opt).map(|c| c.name.clone());
+            let e = match inj.t.choose(6) {
                 0 => Expr::Str("s".into()),
                 1 => Expr::List(vec![]),
                 2 => cap_expr(inj, &one_cap.clone()?),
+                // a comprehension is a list / set whatever its element is
+                3 | 4 => {
+                    let elem = match &opt_cap {
+                        Some(c) => cap_expr(inj, c),
+                        None => Expr::Null,
+                    };
+                    let src = Box::new(Expr::List(vec![Expr::Int(1, 0)]));
+                    let var = inj.fresh("cz");
+                    if inj.t.chance(1, 2) {
+                        Expr::SetComp { id: inj.id(), elem: Box::new(elem), var_id: inj.id(), var, src }
+                    } else {
+                        Expr::ListComp { id: inj.id(), elem: Box::new(elem), var_id: inj.id(), var, src }
+                    }
+                }
                 _ => {
                     let n = inj.fresh("plain");
                     stmts.push(inj.let_(&n, Expr::Int(1, 0)));
@@ -552,7 +567,35 @@ pub fn case(tape: &[u32]) -> CaseOutcome {
     cfg.gnode_text = true;
     cfg.force_globals = t.chance(1, 2);
     let gen = crate::gen::generate(&mut gt, &cfg);
-    let base = gen.prog;
+    let mut base = gen.prog;
+    // statically valid constructs the program generator avoids because they fail at run time
+    // (nothing is executed here): sets as iteration sources, comprehensions over comprehensions
+    if t.chance(1, 3) {
+        let mut ids = Ids(5_000_000);
+        let k = t.choose(5);
+        let one = |ids: &mut Ids| Expr::List(vec![Expr::Int(1, 0)]);
+        let set_comp = |ids: &mut Ids, elem: Expr| Expr::SetComp { id: ids.next(), elem: Box::new(elem), var_id: ids.next(), var: "dz_y".into(), src: Box::new(Expr::List(vec![Expr::Int(1, 0)])) };
+        let stmt = match k {
+            0 => Stmt::For { id: ids.next(), var_id: ids.next(), var: "dz_x".into(), value: set_comp(&mut ids, Expr::Int(1, 0)), body: vec![] },
+            1 => Stmt::For { id: ids.next(), var_id: ids.next(), var: "dz_x".into(), value: set_comp(&mut ids, Expr::Call { func: "node".into(), args: vec![] }), body: vec![] },
+            2 => Stmt::Let { id: ids.next(), var: VarRef::Plain { id: ids.next(), name: "dz_l".into() }, value: Expr::ListComp { id: ids.next(), elem: Box::new(Expr::Var { id: ids.next(), name: "dz_e".into() }), var_id: ids.next(), var: "dz_e".into(), src: Box::new(Expr::Set(vec![Expr::Int(2, 0)])) } },
+            3 => Stmt::For { id: ids.next(), var_id: ids.next(), var: "dz_x".into(), value: Expr::ListComp { id: ids.next(), elem: Box::new(Expr::Str("s".into())), var_id: ids.next(), var: "dz_e".into(), src: Box::new(one(&mut ids)) }, body: vec![] },
+            _ => Stmt::Scan { id: ids.next(), value: Expr::Call { func: "format".into(), args: vec![Expr::Str("{}".into()), Expr::Int(1, 0)] }, arms: vec![ScanArm { regex: "a".into(), body: vec![] }] },
+        };
+        let n = base.items.iter().filter(|i| matches!(i, Item::Stanza(_))).count();
+        if n > 0 {
+            let pick = t.choose(n);
+            let mut seen = 0;
+            for it in base.items.iter_mut() {
+                if let Item::Stanza(st) = it {
+                    if seen == pick {
+                        st.body.push(stmt.clone());
+                    }
+                    seen += 1;
+                }
+            }
+        }
+    }
     // the valid program
     let base_violations = refcheck::check(&base);
     if !base_violations.is_empty() {
